@@ -528,6 +528,26 @@ func r10FanOut(c *Ctx, rule string) {
 				}
 			}
 			construct := "fan-out SendEvent(key, …) in Clients.Range callback"
+			if ok && !strings.Contains(how, "Username") {
+				// a broadcast visits every client: the Range callback never asks to stop
+				for _, rb := range fn.Blocks {
+					if len(rb.Instrs) == 0 {
+						continue
+					}
+					if ret, isRet := rb.Instrs[len(rb.Instrs)-1].(*ssa.Return); isRet && len(ret.Results) == 1 {
+						if !isBoolConst(ret.Results[0], true) {
+							srcs, other := trueSources(ret.Results[0])
+							_ = srcs
+							if k, isC := ret.Results[0].(*ssa.Const); isC || len(other) > 0 || phiHasFalse(ret.Results[0]) {
+								_ = k
+								c.R.Bad(rule, FuncShort(fn), "broadcast callback returns true on every path", c.pos(ret.Pos()), "the Range callback of a broadcast can return false: the fan-out stops at this client and the clients visited after it miss the event")
+								continue
+							}
+						}
+						c.R.Ok(rule, FuncShort(fn), "broadcast callback returns true on every path", c.pos(ret.Pos()), "the iteration continues with the next client", true)
+					}
+				}
+			}
 			if ok {
 				c.R.Ok(rule, FuncShort(fn), construct, c.pos(call.Pos()), how, true)
 			} else {
@@ -538,6 +558,30 @@ func r10FanOut(c *Ctx, rule string) {
 	if n == 0 {
 		c.R.Anchor(rule, "a Clients.Range fan-out calling SendEvent")
 	}
+}
+
+// phiHasFalse: the constant false can flow into v through phis.
+func phiHasFalse(v ssa.Value) bool {
+	seen := map[ssa.Value]bool{}
+	var rec func(v ssa.Value) bool
+	rec = func(v ssa.Value) bool {
+		if seen[v] {
+			return false
+		}
+		seen[v] = true
+		switch x := v.(type) {
+		case *ssa.Const:
+			return isBoolConst(x, false)
+		case *ssa.Phi:
+			for _, e := range x.Edges {
+				if rec(e) {
+					return true
+				}
+			}
+		}
+		return false
+	}
+	return rec(v)
 }
 
 // FuncPkgPathOf is a local alias kept for readability.
